@@ -7,7 +7,8 @@ Open Scope R_scope.
 Ltac kill_if :=
   repeat match goal with
   | |- context [Req_EM_T ?a ?b] =>
-      destruct (Req_EM_T a b) as [?E|?E]; [try (exfalso; lra) | try (exfalso; apply E; lra)]
+      let H := fresh "E" in
+      destruct (Req_EM_T a b) as [H|H]; [try (exfalso; lra) | try (exfalso; apply H; lra)]
   end.
 Ltac c06 := unfold Gen_phi, Gen_NormalDist_sample_args, Gen_BinomialDist_sample_args, Gen_PoissonDist_sample_args,
                    Gen_GammaDist_sample_args, Gen_InvGaussDist_sample_args,
